@@ -402,9 +402,30 @@ def _stencil_path(prog: Program, res: Result, env0, fi, q, eng, f):
     #   the four arrays handed to the tridiagonal solver, the time / time-step pair advanced in the solver loop,
     #   the lists that end up in self.g / self.g_bhw / self.lntts
     dg = [c for c in ast.walk(fi.node) if isinstance(c, ast.Call) and attr_chain(c.func) == "dgtsv"]
-    if len(dg) != 1 or len(dg[0].args) < 4 or not all(isinstance(a, ast.Name) for a in dg[0].args[:4]):
+    def base_and_extent(a):
+        """X  or  X[:k] / X[0:k]  ->  (X, k expr or None)"""
+        if isinstance(a, ast.Name):
+            return a.id, None
+        if isinstance(a, ast.Subscript) and isinstance(a.value, ast.Name) and isinstance(a.slice, ast.Slice) and a.slice.step is None \
+                and (a.slice.lower is None or (isinstance(a.slice.lower, ast.Constant) and a.slice.lower.value == 0)) and a.slice.upper is not None:
+            return a.value.id, a.slice.upper
+        return None, None
+
+    if len(dg) != 1 or len(dg[0].args) < 4 or any(base_and_extent(a)[0] is None for a in dg[0].args[:4]):
         raise AnalysisError(f"{q}: the tridiagonal solve dgtsv(dl, d, du, b) was not found")
-    DL, D, DU, B = (a.id for a in dg[0].args[:4])
+    (DL, xdl), (D, xd), (DU, xdu), (B, xb) = (base_and_extent(a) for a in dg[0].args[:4])
+    # the solve must cover every cell: whole arrays, or prefixes of the full lengths n-1, n, n-1, n
+    ext_bad = []
+    for nm, x_, full in ((DL, xdl, n - Rat.const(1)), (D, xd, n), (DU, xdu, n - Rat.const(1)), (B, xb, n)):
+        if x_ is not None:
+            v_ = eng.eval(x_, f)
+            if not (isinstance(v_, Rat) and v_.equals(full)):
+                ext_bad.append(f"{nm}[:{ast.unparse(x_)}]")
+    res.ob("R10.5", "the tridiagonal solve covers all cells (full coefficient arrays)", not ext_bad, prog.loc(fi, dg[0]))
+    if ext_bad:
+        res.violation("R10.5", f"solve-extent|{ext_bad}", prog.loc(fi, dg[0]), q,
+                      f"dgtsv is given {ext_bad}: only part of the radial mesh is solved and the fixed-temperature boundary sits inside the 10 m far field - heat reaching it is lost")
+        return
     loop = next((n_ for n_ in ast.walk(fi.node) if isinstance(n_, ast.While) and any(dg[0] is x for x in ast.walk(n_))), None)
     if loop is None:
         raise AnalysisError(f"{q}: the time-stepping loop around the solve was not found")
